@@ -35,6 +35,9 @@ class Gates:
         self.problems = []     # (rule_suffix, construct, message, line)
         self.instances = []
         bodies = [b for bid, b in facts.bodies.items() if re.search(r"paseto::Paseto::<'a, Version, Purpose>::parse_raw_token$", bid)]
+        if not bodies:
+            # the same function as a free function / in another module (rules/canon.py restores the name when it was changed)
+            bodies = [b for bid, b in facts.bodies.items() if bid.rsplit("::", 1)[-1] == "parse_raw_token" and bid.startswith("crate::core")]
         self.body = bodies[0] if len(bodies) == 1 else None
         if self.body is None:
             self.problems.append(("anchor", "parse_raw_token", "expected exactly one Paseto::parse_raw_token, found %d" % len(bodies), None))
@@ -286,6 +289,8 @@ class Gates:
 
     def payload_ok(self):
         """the Ok value is URL_SAFE_NO_PAD.decode(segment 2)"""
+        if self.body is None:
+            return False, "anchor missing"
         ps = self.path_sensitive()
         if ps["decided"][0]:
             return ps["payload"] if ps["engine"][0] else ps["engine"]
